@@ -9,20 +9,20 @@ the IMPLEMENTATION's output (`impl.*` arguments). -/
 namespace Pf.Ops
 open Pf.Proto
 
-def ratsArg (a : Args) (name : String) : Except String (Array Rat) := do
+def ratsArg_c20 (a : Args) (name : String) : Except String (Array Rat) := do
   let ns ← a.ints (name ++ ".n")
   let ds ← a.ints (name ++ ".d")
   if ns.size ≠ ds.size then throw s!"size:{name}"
   pure ((ns.zip ds).map fun (p : Int × Int) => (p.1 : Rat) / (p.2 : Rat))
 
 def ratArg (a : Args) (name : String) : Except String Rat := do
-  let v ← ratsArg a name
+  let v ← ratsArg_c20 a name
   if h : 0 < v.size then pure v[0] else throw s!"empty:{name}"
 
 def optRatsArg (a : Args) (name : String) : Except String (Option (Array Rat)) :=
   match a.get? (name ++ ".n") with
   | none => pure none
-  | some _ => do pure (some (← ratsArg a name))
+  | some _ => do pure (some (← ratsArg_c20 a name))
 
 def outRats (name : String) (v : Array Rat) : Out :=
   [(name ++ ".n", v.map (·.num)), (name ++ ".d", v.map fun q => (q.den : Int))]
@@ -40,10 +40,10 @@ def gridArg (a : Args) : Except String (SpGrid × Array Rat) := do
   let msk := a.optBools "msk"
   let (geo, lats) ←
     if latlon then do
-      let tl ← ratsArg a "tab.lat"
-      let tx ← ratsArg a "tab.mx"
-      let ty ← ratsArg a "tab.my"
-      let tg ← ratsArg a "tab.dg"
+      let tl ← ratsArg_c20 a "tab.lat"
+      let tx ← ratsArg_c20 a "tab.mx"
+      let ty ← ratsArg_c20 a "tab.my"
+      let tg ← ratsArg_c20 a "tab.dg"
       let tab : DegTable := (List.range tl.size).map fun i => (tl[i]!, tx[i]!, ty[i]!, tg[i]!)
       match geomLatLon nrow north xres t4 tab with
       | none => throw "domain:row-latitude-not-evaluated-by-implementation"
@@ -121,7 +121,7 @@ def opsC20 : List (String × Op) := [
       match a.get? "impl.src" with
       | none => pure []
       | some isrc => do
-        let o : SpOut := { src := isrc, dst := (← ratsArg a "impl.dst"), out := (← a.ints "impl.out") }
+        let o : SpOut := { src := isrc, dst := (← ratsArg_c20 a "impl.dst"), out := (← a.ints "impl.out") }
         pure [("cert.impl", ofBool (spreadCert G o))]
     match spread2d G with
     | none => throw "fuel"
